@@ -6,16 +6,28 @@ CONSTANTS
   MaxSeq = 3
   PrunePositions <- AllPositions
   MaxDeliver = 4
-  MaxInFlight = 1
+  MaxInFlight = 3
   ForgeBudget = 0
   Classes <- AllClasses
-  FineIngest = FALSE
+  FineIngest = TRUE
   Batch = FALSE
-  Worker = {}
+  Worker = {"w1", "w2"}
   Variant_ReadLatestBeforeBegin = FALSE
   Defect_PruneAfterFailedIngest = FALSE
   Defect_PruneFlagSkipsLatestCheck = FALSE
   Defect_LogIdFromTopicUnchecked = FALSE
 INVARIANTS
-  Export
+  C01_OnlyAuthenticStored
+  C01_InvalidNeverCompleted
+  C03_UniqueSeq
+  C03_Linked
+  C05_NoResurrection
+PROPERTIES
+  MC_C01_RejectLeavesNoTrace
+  MC_C03_HeightMonotone
+  MC_C03_RejectsNonExtending
+  MC_C04_DeletesOnlyByValidPrune
+  MC_C04_ValidPruneDeletesExactly
+  MC_C05_NoInsertBelowPrunePoint
+VIEW NoHistView
 CHECK_DEADLOCK FALSE
